@@ -65,6 +65,8 @@ pub enum Op {
     RemovePublisher { publisher: String },
     SessionReset,
     UpdateId { ca: String },
+    /// queue the real UpdateSnapshots task (due now)
+    Snapshots,
     Step,
     Pump,
     Tick { secs: i64 },
@@ -296,6 +298,10 @@ impl World {
             Op::UpdateId { ca: c } => OpOutcome::from_res(
                 self.krill.ca_manager().ca_update_id(ca(c), &self.actor, &self.krill),
             ),
+            Op::Snapshots => OpOutcome::from_res(self.krill.tasks().schedule(
+                krill::server::mq::Task::UpdateSnapshots,
+                krill::server::mq::now(),
+            )),
             Op::Step => {
                 use krill::server::scheduler::VerifStepOutcome as O;
                 match self.step() {
